@@ -220,7 +220,7 @@ pub fn c06(tier: Tier) -> i32 {
         }
     }
     for (sig, (i, what)) in &best {
-        rep.violation(format!("liveness:{}", sig), format!("[scenario {:?}] {}", grid[*i], what), json!({"engine":"sim","check":"c06","scenario":format!("{:?}", grid[*i])}));
+        rep.violation(format!("liveness:{}", sig), format!("[scenario {:?}] {}", grid[*i], what), json!({"engine":"sim","check":"c06","scenario":format!("{:?}", grid[*i]),"params":sc06_json(&grid[*i])}));
     }
     println!("  sim/liveness: scenarios={} distinct outcomes={}", grid.len(), outcomes.len());
     rep.set("evaluations", json!(grid.len()));
@@ -433,7 +433,7 @@ pub fn c07(tier: Tier) -> i32 {
         }
     }
     for (sig, (i, what)) in &best {
-        rep.violation(format!("catchup:{}", sig), format!("[scenario {:?}] {}", grid[*i], what), json!({"engine":"sim","check":"c07","scenario":format!("{:?}", grid[*i])}));
+        rep.violation(format!("catchup:{}", sig), format!("[scenario {:?}] {}", grid[*i], what), json!({"engine":"sim","check":"c07","scenario":format!("{:?}", grid[*i]),"params":json!({"j":grid[*i].j,"start_round":grid[*i].start_round,"len":grid[*i].len,"cut":grid[*i].cut,"mute":grid[*i].mute_first_target})}));
     }
     println!("  sim/catch-up: scenarios={} distinct outcomes={} scenarios with sync requests={} with helper replies={}", grid.len(), outcomes.len(), with_sync, with_replies);
     rep.set("evaluations", json!(grid.len()));
@@ -740,7 +740,7 @@ pub fn c13(tier: Tier) -> i32 {
         }
     }
     for (sig, (i, what)) in &best {
-        rep.violation(format!("e2e:{}", sig), format!("[scenario {:?}] {}", grid[*i], what), json!({"engine":"sim","check":"c13","scenario":format!("{:?}", grid[*i])}));
+        rep.violation(format!("e2e:{}", sig), format!("[scenario {:?}] {}", grid[*i], what), json!({"engine":"sim","check":"c13","scenario":format!("{:?}", grid[*i]),"params":json!({"placement":grid[*i].placement,"txs_per_node":grid[*i].txs_per_node,"slow_links":grid[*i].slow_links,"lost_batch":grid[*i].lost_batch,"mute_author":grid[*i].mute_author})}));
     }
     println!("  sim/end-to-end: scenarios={} distinct outcomes={} with a lost batch broadcast={} not judged (a view change occurred)={}", grid.len(), outcomes.len(), fetched, not_judged);
     rep.set("evaluations", json!(grid.len()));
@@ -989,7 +989,7 @@ pub fn c01_strategies(rep: &mut Report, tier: Tier) {
         }
         for (sig, what) in bad {
             if !reported || sig != "agreement:conflicting-commits" {
-                rep.violation(sig.clone(), format!("[byzantine strategy {:?}] {}", grid[i], what), json!({"engine":"sim","check":"c01-strategies","scenario":format!("{:?}", grid[i])}));
+                rep.violation(sig.clone(), format!("[byzantine strategy {:?}] {}", grid[i], what), json!({"engine":"sim","check":"c01-strategies","scenario":format!("{:?}", grid[i]),"params":json!({"z":grid[i].z,"s1":grid[i].s1,"s2":grid[i].s2,"stale_genesis":grid[i].stale_genesis,"claim_low":grid[i].claim_low,"vote_all":grid[i].vote_all})}));
             }
             if sig == "agreement:conflicting-commits" {
                 reported = true;
@@ -1009,5 +1009,56 @@ pub fn debug_byz() {
         let sc = ScByz { z: 3, s1, s2, stale_genesis: true, claim_low: true, vote_all: true };
         let (bad, info) = run_byz(&sc);
         println!("{:?} -> {} {:?}", sc, info, bad);
+    }
+}
+
+fn sc06_json(sc: &Sc06) -> Value {
+    json!({
+        "n": sc.n,
+        "crashes": sc.crashes.iter().map(|(c, at)| match at { CrashAt::Boot => json!({"node": c, "at": "boot"}), CrashAt::AfterProposal(k, r) => json!({"node": c, "at": "proposal", "k": k, "reach": r}) }).collect::<Vec<_>>(),
+        "pre": match &sc.pre { Pre::None => json!({"kind": "none"}), Pre::Isolate(x) => json!({"kind": "isolate", "node": x}), Pre::Split => json!({"kind": "split"}), Pre::HoldLinks(l) => json!({"kind": "hold", "links": l}) },
+        "window": sc.window,
+    })
+}
+
+/// Re-run one recorded scenario of a sim-based check and print what the oracle says.
+pub fn replay(prop: &str, v: &Value) -> i32 {
+    let r = &v["replay"];
+    let p = &r["params"];
+    let u = |x: &Value| x.as_u64().unwrap_or(0);
+    let (bad, info) = match r["check"].as_str().unwrap_or("") {
+        "c06" => {
+            let crashes = p["crashes"].as_array().cloned().unwrap_or_default().iter().map(|c| (u(&c["node"]) as usize, if c["at"] == "boot" { CrashAt::Boot } else { CrashAt::AfterProposal(u(&c["k"]) as u32, u(&c["reach"]) as u8) })).collect();
+            let pre = match p["pre"]["kind"].as_str().unwrap_or("none") {
+                "isolate" => Pre::Isolate(u(&p["pre"]["node"]) as usize),
+                "split" => Pre::Split,
+                "hold" => Pre::HoldLinks(p["pre"]["links"].as_array().cloned().unwrap_or_default().iter().map(|l| (u(&l[0]) as usize, u(&l[1]) as usize)).collect()),
+                _ => Pre::None,
+            };
+            run_c06(&Sc06 { n: u(&p["n"]) as usize, crashes, pre, window: u(&p["window"]) })
+        }
+        "c07" => run_c07(&Sc07 { j: u(&p["j"]) as usize, start_round: u(&p["start_round"]), len: u(&p["len"]), cut: p["cut"] == true, mute_first_target: p["mute"] == true }),
+        "c13" => run_c13(&Sc13 {
+            placement: u(&p["placement"]) as u8,
+            txs_per_node: u(&p["txs_per_node"]) as usize,
+            slow_links: p["slow_links"].as_array().cloned().unwrap_or_default().iter().map(|l| (u(&l[0]) as usize, u(&l[1]) as usize)).collect(),
+            lost_batch: if p["lost_batch"].is_null() { None } else { Some((u(&p["lost_batch"][0]) as usize, u(&p["lost_batch"][1]) as usize)) },
+            mute_author: p["mute_author"] == true,
+        }),
+        "c01-strategies" => run_byz(&ScByz { z: u(&p["z"]) as usize, s1: u(&p["s1"]) as u8, s2: u(&p["s2"]) as u8, stale_genesis: p["stale_genesis"] == true, claim_low: p["claim_low"] == true, vote_all: p["vote_all"] == true }),
+        other => {
+            eprintln!("this replay file has no re-runnable scenario (check = {:?})", other);
+            return 2;
+        }
+    };
+    println!("scenario: {}\noutcome: {}", r["scenario"], info);
+    for (sig, what) in &bad {
+        println!("[{}] {}", sig, what);
+    }
+    if bad.is_empty() {
+        println!("replay did not reproduce a violation of {}", prop);
+        0
+    } else {
+        1
     }
 }
